@@ -201,7 +201,8 @@ class SMUserList(UserList, ABC):
 
             elif type(arg[0]) == type(self):
                 # possibly a list of objects of same type
-                assert all(map(lambda x: type(x) == type(self), arg)), 'elements of list are incorrect type'
+                if not (all(map(lambda x: type(x) == type(self), arg))):
+                    raise TypeError('elements of list are incorrect type')
                 if any(len(x) != 1 for x in arg):
                     raise ValueError('elements of list must be single-valued objects')
                 self.data = [x.A for x in arg]
